@@ -272,6 +272,7 @@ func opReadEncode(s int) storeOp {
 		},
 		mod: func(*StoreWorld) {}}
 }
+
 // opReadAll: every read-only operation in one step (the C15 worlds, where what
 // matters is that something derived from the content may have been cached
 // before the Clear).
